@@ -405,7 +405,8 @@ def readKind : Kind → Nat → Bool → Bytes → Res (Val × Bytes)
   | .marker, _, _, rest => .ok (.absent, rest) 0
 def compile : Fields → List Slot
   | .nil => []
-  | .cons t k fs => ⟨t, k.hasTyp, k.required, k.multi, k.init, readKind k⟩ :: compile fs
+  -- `{{- if (ne $f.TypeNum 0)}} case …`: a field without a type number has no `case`
+  | .cons t k fs => ⟨t, k.hasTyp && t != 0, k.required, k.multi, k.init, readKind k⟩ :: compile fs
 end
 
 /-- `Parse<Model>(enc.NewBufferReader(b), ignoreCritical)` -/
